@@ -38,6 +38,15 @@ MUTANTS = [
  ('benign-nested-loop-as-for-each', 'nested', 'grapheme.rs', '        for repetition in self.repetitions.iter_mut() {\n            repetition.escape_regexp_symbols(\n                is_non_ascii_char_escaped,\n                is_astral_code_point_converted_to_surrogate,\n            );\n        }\n', '        self.repetitions.iter_mut().for_each(|repetition| {\n            repetition.escape_regexp_symbols(\n                is_non_ascii_char_escaped,\n                is_astral_code_point_converted_to_surrogate,\n            );\n        });\n', 'pass', ''),
  ('reuse-edge-on-equal-minimum', 'trie', 'dfa.rs', '} else if current_grapheme.maximum() == grapheme.maximum() {', '} else if current_grapheme.maximum() == grapheme.maximum() || current_grapheme.minimum() == grapheme.minimum() {', 'fail', 'find_next_state.reuse_scope'),
  ('edge-compare-first-grapheme', 'trie', 'dfa.rs', 'if current_grapheme.value() != grapheme.value() {', 'if current_grapheme.chars().first() != grapheme.chars().first() {', 'undecided-or-fail', 'find_next_state.'),
+ ('minimize-block-not-removed', 'minimize', 'dfa.rs', '                        p.remove(start_idx);\n', '', 'fail', 'minimize.'),
+ ('minimize-difference-reversed', 'minimize', 'dfa.rs', 'let d = y.difference(&x).copied()', 'let d = x.difference(y).copied()', 'fail', 'minimize.'),
+ ('minimize-second-half-dropped', 'minimize', 'dfa.rs', '                        p.insert(start_idx + 1, d.clone());\n', '', 'fail', 'minimize.'),
+ ('minimize-worklist-pop-unchecked', 'minimize', 'dfa.rs', 'while !w.is_empty() {', 'while w.len() != 1 {', 'fail', 'Dfa::minimize.safety'),
+ ('minimize-insert-past-end', 'minimize', 'dfa.rs', 'p.insert(start_idx + 1, d.clone());', 'p.insert(start_idx + 2, d.clone());', 'fail', 'minimize'),
+ ('parent-states-edge-reversed', 'minimize', 'dfa.rs', 'let edge = self.graph.find_edge(parent_state, state).unwrap();\n                let grapheme', 'let edge = self.graph.find_edge(state, parent_state).unwrap();\n                let grapheme', 'fail', 'Dfa::get_parent_states.safety'),
+ ('parent-states-outgoing', 'minimize', 'dfa.rs', 'self.graph.neighbors_directed(state, Direction::Incoming);', 'self.graph.neighbors_directed(state, Direction::Outgoing);', 'fail', 'get_parent_states'),
+ ('benign-minimize-halves-swapped', 'minimize', 'dfa.rs', '                        p.insert(start_idx, i.clone());\n                        p.insert(start_idx + 1, d.clone());', '                        p.insert(start_idx, d.clone());\n                        p.insert(start_idx + 1, i.clone());', 'pass', ''),
+ ('benign-minimize-push-larger-half', 'minimize', 'dfa.rs', '} else if i.len() <= d.len() {', '} else if i.len() >= d.len() {', 'pass', ''),
  ('add-new-state-edge-reversed', 'trie', 'dfa.rs', '.add_edge(current_state, next_state, edge_label.clone());', '.add_edge(next_state, current_state, edge_label.clone());', 'fail', 'add_new_state.'),
  ('insert-marks-start', 'trie', 'dfa.rs', 'self.final_state_indices.insert(current_state.index());\n    }', 'self.final_state_indices.insert(self.initial_state.index());\n    }', 'fail', 'insert.'),
  ('pipeline-sort-before-lowercase', 'regexp', 'regexp.rs', '        if config.is_case_insensitive_matching {\n            Self::convert_for_case_insensitive_matching(test_cases);\n        }\n        Self::sort(test_cases);', '        Self::sort(test_cases);\n        if config.is_case_insensitive_matching {\n            Self::convert_for_case_insensitive_matching(test_cases);\n        }', 'fail', 'pipeline.input_prepared'),
